@@ -94,6 +94,7 @@ type vOp struct {
 	Added  int                    `json:"added"`           // cnoise: how many presentations of the OTHER service the client stored (each add prunes)
 	Up     bool                   `json:"up"`              // verifier: the client node's verifier is available (true) / down (false)
 	After  int                    `json:"after"`           // get: the timestamp asked for
+	K      int                    `json:"k"`               // dfinish: which in-flight response (index) arrives
 	Order  []string               `json:"order,omitempty"` // poll/pollB: ids in the order updateService stored them (Go map iteration)
 }
 
@@ -147,11 +148,22 @@ type vWorld struct {
 	defs       map[string]ServiceDefinition
 	noise      map[string]string // other service: subject -> id of its presentation there (what the server must list for vSvc2)
 	otherAdds  int               // presentations of the other service the client stored during the running update
+	delayed    []*vDelayed
 	inject     *vc.VerifiablePresentation // pollinject: an extra entry the adapter adds to the next response
 	clientDown bool   // the client node's VerifyVP fails for everything (DID resolution / verifier outage)
 	addOrder []string // presentation ids in the order the client stored them during the running updateService
 	credPool map[string]vc.VerifiableCredential
 }
+
+// vDelayed is another poll of the same client whose response is in flight: its goroutine sits in the adapter, after the
+// server answered, until the harness lets the response arrive (only one goroutine ever runs at a time)
+type vDelayed struct {
+	arrived chan struct{}
+	release chan struct{}
+	done    chan string
+}
+
+type vDelayKey struct{}
 
 type vAdapter struct{ w *vWorld }
 
@@ -169,6 +181,10 @@ func (a vAdapter) Get(ctx context.Context, endpoint string, timestamp int) (map[
 	}
 	if a.w.inject != nil && id == vSvc {
 		ps["999999"] = *a.w.inject
+	}
+	if d, ok := ctx.Value(vDelayKey{}).(*vDelayed); ok && id == vSvc {
+		close(d.arrived)
+		<-d.release
 	}
 	// what api/server/api.go sends and api/server/client/http.go decodes: the JSON form of the response
 	body, err := json.Marshal(client.PresentationsResponse{Entries: ps, Seed: seed, Timestamp: ts})
@@ -643,6 +659,11 @@ func vNow() int64 { return time.Now().Unix() }
 
 func (r *vRunner) initHistory(hist int, dr vDefRecipe) {
 	if r.w != nil {
+		for _, d := range r.w.delayed { // never leave a poll in flight across histories
+			close(d.release)
+			<-d.done
+		}
+		r.w.delayed = nil
 		_ = r.w.server.Shutdown()
 		_ = r.w.client.Shutdown()
 	}
@@ -755,6 +776,28 @@ func (r *vRunner) exec(op vOp, src func() (vOp, bool)) {
 		if w.otherAdds != 0 {
 			r.t.Fatalf("pollall: the other list had news (%d)", w.otherAdds)
 		}
+		op.Order = w.addOrder
+		r.emit(op, w.observe(cls, op.Now))
+	case "dstart":
+		// another poll of the same client (updateService is not serialised): the server answers now, the response stays in flight
+		d := &vDelayed{arrived: make(chan struct{}), release: make(chan struct{}), done: make(chan string, 1)}
+		go func() {
+			d.done <- vRecover(func() error {
+				return w.client.clientUpdater.updateService(context.WithValue(ctx, vDelayKey{}, d), w.def)
+			})
+		}()
+		<-d.arrived
+		w.delayed = append(w.delayed, d)
+		r.emit(op, w.observe("ok", op.Now))
+	case "dfinish":
+		if op.K >= len(w.delayed) {
+			r.t.Fatalf("dfinish %d: only %d responses in flight", op.K, len(w.delayed))
+		}
+		d := w.delayed[op.K]
+		w.delayed = append(w.delayed[:op.K:op.K], w.delayed[op.K+1:]...)
+		w.addOrder = nil
+		close(d.release)
+		cls := <-d.done
 		op.Order = w.addOrder
 		r.emit(op, w.observe(cls, op.Now))
 	case "pollinject":
@@ -967,6 +1010,9 @@ func (r *vRunner) genServerOp(lastExp map[string]int64) vOp {
 				Creds: []string{}, VerifyS: true, VerifyC: true}
 			if rng.Intn(6) == 0 {
 				class, rec.VerifyS = "retract:owner-bad-signature", false
+			} else if rng.Intn(5) == 0 {
+				// a retraction is a presentation too: it must not be valid for longer than the maximum either
+				class, rec.Exp = "retract:owner-valid-too-long", i64(int64(r.w.def.PresentationMaxValidity)+600+int64(rng.Intn(100)))
 			}
 		}
 	case pick < 90:
@@ -1076,6 +1122,34 @@ func (r *vRunner) history(hist int, nOps int) {
 			r.exec(vOp{Op: "pollall", Quiet: quiet, Class: "update-all-services"}, nil)
 		case p < 62:
 			r.exec(vOp{Op: "purge", Class: "remove-revoked"}, nil)
+		case p < 66:
+			// a second poller: its response is in flight while subjects refresh / retract and the first poller completes polls;
+			// it is applied afterwards (the older response last)
+			r.exec(vOp{Op: "dstart", Class: "overlapping-poll"}, nil)
+			for k, n := 0, 1+rng.Intn(3); k < n; k++ {
+				if rng.Intn(3) == 0 {
+					r.exec(vOp{Op: "poll", Quiet: 1}, nil)
+				} else {
+					o := r.genServerOp(lastExp)
+					if rng.Intn(2) == 0 {
+						// favour a refresh of somebody who is listed
+						if rows := r.serverRows(); len(rows) > 0 {
+							row := rows[rng.Intn(len(rows))]
+							if strings.HasPrefix(row.CredentialSubjectID, "did:example:s") && row.CredentialSubjectID != "did:example:s4" {
+								rec := r.validRecipe(row.CredentialSubjectID)
+								if e := row.PresentationExpiration - r.w.t0; *rec.Exp < e {
+									rec.Exp = i64(e + 1)
+								}
+								o = vOp{Op: "register", Recipe: &rec, Class: "valid"}
+							}
+						}
+					}
+					noteExp(o)
+					r.exec(o, nil)
+				}
+			}
+			r.exec(vOp{Op: "dfinish", K: 0, Class: "overlapping-poll"}, nil)
+			quiet = 0
 		case p < 76:
 			quiet++
 			r.exec(vOp{Op: "poll", Quiet: quiet}, nil)
